@@ -401,6 +401,29 @@ let run_w () =
     (if wfb g root then 1 else 0) (if ins_okb g && outs_okb g then 1 else 0)
     (if productiveb g then 1 else 0) (if acyclicb g then 1 else 0))
 
+(* stream WG: the node table of a front-end graph: the certificate of stream W, then generate_paths of the model *)
+let run_wg () =
+  let fuel = next_nat () in
+  let root = next_nat () in
+  let n = next () in
+  let g = List.init n (fun _ ->
+    let k = match next () with
+      | 0 -> KLeaf false | 1 -> KLeaf true
+      | 2 -> KDec (false, false) | 3 -> KDec (false, true) | 4 -> KDec (true, false) | 5 -> KDec (true, true)
+      | _ -> KRef [] in
+    let outs = next_list () in
+    let ni = next () in
+    let ins = List.init ni (fun _ -> let s = next_nat () in let i = next_nat () in (s, i)) in
+    { nkind = k; nid = None; outs = outs; ins = ins }) in
+  let cert = Printf.sprintf "wf=%d|cons=%d|prod=%d|acyc=%d"
+    (if wfb g root then 1 else 0) (if ins_okb g && outs_okb g then 1 else 0)
+    (if productiveb g then 1 else 0) (if acyclicb g then 1 else 0) in
+  let v = { fix_leaf = true; fix_af = true; fix_reset = true } in
+  (match generate_paths v fuel g root aempty aempty with
+   | Ok (_, (es, st)) ->
+     print_endline (cert ^ "|entries=" ^ String.concat ";" (List.map show_entry es) ^ "|status=" ^ show_res (fun () -> "") st)
+   | r -> print_endline (cert ^ "|entries=|status=" ^ show_res (fun _ -> "") r))
+
 (* stream O: SampleCache histories *)
 let ecls_of_code = function
   | 0 -> EResolveReference | 1 -> EInternal | 2 -> ENormalization | 3 -> EJsonPointer
@@ -460,13 +483,20 @@ let run_o () =
   done;
   print_endline (String.concat " # " (List.rev !outs))
 
+(* a case that keeps the model busy for more than [limit] seconds is given up (reported as error=timeout):
+   the harness counts it and draws no conclusion from it *)
+exception Timeout
+let limit = try int_of_string (Sys.getenv "FENCES_DRIVER_LIMIT") with _ -> 30
+
 let () =
+  Sys.set_signal Sys.sigalrm (Sys.Signal_handle (fun _ -> raise Timeout));
   try
     while true do
       let line = input_line stdin in
       let ts = Array.of_list (List.filter (fun s -> s <> "") (String.split_on_char ' ' line)) in
       if Array.length ts > 0 then begin
         toks := ts; pos := 1;
+        ignore (Unix.alarm limit);
         (try
            match ts.(0) with
            | "G" -> run_g ()
@@ -477,13 +507,17 @@ let () =
            | "GM" -> run_gm ()
            | "N" -> run_n ()
            | "W" -> run_w ()
+           | "WG" -> run_wg ()
            | "J" -> run_j ()
            | "F" -> run_f ()
            | "O" -> run_o ()
            | t -> print_endline ("error=unknown-stream:" ^ t)
          with Stack_overflow -> print_endline "error=stack-overflow"
             | Failure m -> print_endline ("error=failure:" ^ m)
-            | Invalid_argument m -> print_endline ("error=invalid:" ^ m))
+            | Invalid_argument m -> print_endline ("error=invalid:" ^ m)
+            | Timeout -> print_endline "error=timeout"
+            | Out_of_memory -> print_endline "error=timeout");
+        ignore (Unix.alarm 0)
       end
     done
   with End_of_file -> ()
